@@ -39,6 +39,7 @@ type Engine struct {
 	strIDs    map[string]int
 	constGlobals map[string]string // "pkg.Name" -> string content
 	assumptions map[string]bool
+	implCache map[string][]*ssa.Function
 }
 
 var loadPatterns = []string{".", "./y", "./table", "./skl", "./trie"}
@@ -64,6 +65,7 @@ func loadEngine(repo, verifDir string) (*Engine, error) {
 	prog, spkgs := ssautil.AllPackages(pkgs, ssa.GlobalDebug)
 	prog.Build()
 	e.prog = prog
+	theProg = prog
 	for i, sp := range spkgs {
 		if sp != nil {
 			e.spkgs[pkgs[i].PkgPath] = sp
@@ -669,17 +671,19 @@ func (e *Engine) verifyFunction(key string, ct *Contract) (res *FnResult) {
 // frameCheck: every heap location written by the function is either fresh, local, or listed
 // in the assigns clause.
 func (fc *FnCtx) frameCheck(rs *State, env *SpecEnv, pos token.Pos) {
-	if fc.havocedAll {
-		// a callee without frame was havoc'd: nothing can be proved about the frame
-		fc.oblige(rs.clone(), "false", "frame:everything", "frame", pos, "a call without contract may modify anything")
-		return
-	}
 	var targets []assignTarget
 	penv := env.inState(fc.pre)
 	for _, a := range fc.ct.Assigns {
 		if a.Src == "everything" {
 			return
 		}
+	}
+	if fc.havocedAll {
+		// a callee without frame was havoc'd: nothing can be proved about the frame
+		fc.oblige(rs.clone(), "false", "frame:everything", "frame", pos, "a call without contract may modify anything")
+		return
+	}
+	for _, a := range fc.ct.Assigns {
 		targets = append(targets, fc.guardedTargets(penv, a)...)
 	}
 	var keys []string
